@@ -291,10 +291,17 @@ struct Ctx
             cs += jstr(kv.first) + ":" + jint(kv.second);
         }
         o.raw("cells", cs + "}");
+        // distinct non-trivial cases: all hashes when there are few; otherwise the sub-sample "hash mod M == 0" (M a power of
+        // two), which is consistent across shards, so that the union can still be counted (and scaled by M) by the caller
+        uint64_t mod = 1;
+        while (hashes.size() / mod > 200000)
+            mod *= 2;
         std::string hs = "[";
         f = true;
         for (uint64_t h : hashes)
         {
+            if (mod > 1 && (h & (mod - 1)) != 0)
+                continue;
             if (!f)
                 hs += ",";
             f = false;
@@ -303,6 +310,8 @@ struct Ctx
             hs += b;
         }
         o.raw("hashes", hs + "]");
+        o.i("hash_sample_mod", (long long)mod);
+        o.i("hashes_exact_in_shard", (long long)hashes.size());
         for (int k = 0; k < 4; ++k)
         {
             if (distinct_sets[k].empty())
